@@ -72,6 +72,21 @@ class Repo:
             for node in ast.walk(tree):
                 node._module = name  # type: ignore[attr-defined]
             self.modules[name] = Module(name, path, text, tree)
+        # a method renamed in its own module is also renamed where other modules call it
+        for mname, st in list(self.canon_stats.items()):
+            for ren in st.get("function_renames_undone", []):
+                new_q, old_q = ren.split("->")
+                new_n, old_n = new_q.rsplit(".", 1)[-1], old_q.rsplit(".", 1)[-1]
+                for other, mod in self.modules.items():
+                    if other == mname:
+                        continue
+                    for node in ast.walk(mod.tree):
+                        if isinstance(node, ast.Attribute) and node.attr == new_n:
+                            node.attr = old_n
+                        elif isinstance(node, ast.alias) and node.name == new_n:
+                            node.name = old_n
+                        elif isinstance(node, ast.Name) and node.id == new_n and "." not in old_q:
+                            node.id = old_n
         self._func_cache: Dict[Tuple[str, str], ast.AST] = {}
 
     # -- lookup
